@@ -130,6 +130,65 @@ def _edge_stats(g):
     return dict(st)
 
 
+def _covering_walks(g, seed, max_len):
+    """Every edge at least once, in O(E * depth): BFS-tree prefix to a state with uncovered out-edges (shallow
+    states first), then uncovered edges greedily, one step of look-ahead when stuck.  (graph.covering_walks
+    spends 17 s on the 75 k-edge graph of addr2 in its bounded BFS look-ahead and produces more steps.)
+    Returns (walks, BFS parent map)."""
+    import random
+    rnd = random.Random(seed)
+    parent = {}
+    dq = collections.deque()
+    for i in g.inits:
+        parent[i] = None
+        dq.append(i)
+    order = []
+    while dq:
+        u = dq.popleft()
+        order.append(u)
+        for ei in g.out.get(u, ()):
+            v = g.edges[ei][2]
+            if v not in parent:
+                parent[v] = (u, ei)
+                dq.append(v)
+    unc = {k: list(v) for k, v in g.out.items()}
+    for k in sorted(unc):
+        rnd.shuffle(unc[k])
+
+    def path_to(u):
+        p = []
+        while parent[u] is not None:
+            pu, pe = parent[u]
+            p.append(pe)
+            u = pu
+        p.reverse()
+        return u, p
+
+    walks = []
+    ncov = 0
+    for u in order:
+        while unc.get(u):
+            start, walk = path_to(u)
+            cur = u
+            first = True
+            while first or len(walk) < max_len:
+                first = False
+                lst = unc.get(cur)
+                if lst:
+                    ei = lst.pop()
+                    ncov += 1
+                else:
+                    ei = next((e for e in g.out.get(cur, ()) if unc.get(g.edges[e][2])), None)
+                    if ei is None:
+                        break
+                walk.append(ei)
+                cur = g.edges[ei][2]
+            walks.append(g._mk(start, walk))
+    if ncov != g.n_edges():
+        raise MachineryError("covering walks cover %d of %d edges" % (ncov, g.n_edges()))
+    return walks, parent
+
+
 def _replay_instance(args):
     ctx, (name, consts), beh_dir = args
     cfg = tlc.subst_cfg("C13_MC.cfg", consts, replace=[
@@ -144,25 +203,12 @@ def _replay_instance(args):
     if g.n_edges() == 0:
         raise MachineryError("no edges printed for " + name)
     stats = _edge_stats(g)
-    walks = g.covering_walks(seed=ctx.seed, max_len=40)
+    walks, parent = _covering_walks(g, ctx.seed, 40)
     # the lifetime probe at the end of a walk is destructive: add a shortest walk to every state that is not
     # yet the end of one, so that every model state is probed
     ends = set()
     for w in walks:
         ends.add(graph.key(w["steps"][-1]["state"]) if w["steps"] else graph.key(w["init"]))
-    parent = {}
-    import collections as _c
-    dq = _c.deque()
-    for i in g.inits:
-        parent[i] = None
-        dq.append(i)
-    while dq:
-        u = dq.popleft()
-        for ei in g.out.get(u, ()):
-            v = g.edges[ei][2]
-            if v not in parent:
-                parent[v] = (u, ei)
-                dq.append(v)
     extra = 0
     for sk in sorted(parent):
         if sk in ends or parent[sk] is None:
@@ -186,6 +232,10 @@ def _sections(ctx):
     return goenv.run_harness(ctx, PKG, "^TestVerifC13Sections$", timeout=900)
 
 
+def _replay(ctx, beh_dir):
+    return goenv.run_harness(ctx, PKG, "^TestVerifC13Replay$", inputs=beh_dir, timeout=2400)
+
+
 def run(ctx):
     if ctx.replay:
         raise MachineryError("C13 artefacts hold the failing prefix and the instance; re-run `VERIF_SEED=<seed in file name> ./check C13`")
@@ -194,7 +244,8 @@ def run(ctx):
     rinsts = replay_instances(ctx)
     einsts = exhaustive_instances(ctx)
     # <= 4 TLC workers at a time: one lane of exhaustive runs (2 workers), two printing lanes (1 worker each);
-    # the section probe needs no TLC output: it (and the build of the test binary) runs meanwhile
+    # the section probe needs no TLC output: it (and the build of the test binary) runs meanwhile; the replay
+    # starts as soon as the graphs are written, next to what is left of the exhaustive lane
     with cf.ProcessPoolExecutor(max_workers=1) as pe, cf.ProcessPoolExecutor(max_workers=2) as pr, \
             cf.ProcessPoolExecutor(max_workers=1) as ps:
         fs = ps.submit(_sections, ctx)
@@ -202,14 +253,17 @@ def run(ctx):
         fe = [pe.submit(_exhaustive, (ctx, i, 2)) for i in einsts]
         fl = pe.submit(_liveness, ctx)
         fg = [pe.submit(_reach, (ctx, rinsts[0], probe)) for probe in ("ReachSome", "ReachRecentBig", "ReachDoneAfterDisc")]
-        eres = [f.result() for f in fe]
-        live = fl.result()
-        guards = [f.result() for f in fg]
-        log("C13: exhaustive + liveness done at %.1fs" % ctx.wall())
         rres = [f.result() for f in fr]
         log("C13: graphs and walks done at %.1fs" % ctx.wall())
         sections = fs.result()
         log("C13: section probe done at %.1fs" % ctx.wall())
+        fp = ps.submit(_replay, ctx, beh_dir)
+        eres = [f.result() for f in fe]
+        live = fl.result()
+        guards = [f.result() for f in fg]
+        log("C13: exhaustive + liveness done at %.1fs" % ctx.wall())
+        res = fp.result()
+        log("C13: replay done at %.1fs" % ctx.wall())
 
     states = sum(r[1] for r in eres) + sum(r[1] for r in rres) + live[0]
     trans = sum(r[2] for r in eres) + sum(r[2] for r in rres) + live[1]
@@ -230,7 +284,6 @@ def run(ctx):
             raise MachineryError("vacuity guard: no replayed transition of kind %s" % k)
 
     div = classify_mismatches(ctx, sections, "sections")
-    res = goenv.run_harness(ctx, PKG, "^TestVerifC13Replay$", inputs=beh_dir, timeout=1500)
     div += classify_mismatches(ctx, res, "replay")
     if not res["mismatches"] and res["distinct"] < edges_total:
         raise MachineryError("replay executed %d distinct transitions of %d" % (res["distinct"], edges_total))
